@@ -760,6 +760,45 @@ GENS = {"dense": gen_dense, "history": gen_history, "circ": gen_circ, "fblock": 
 ORACLES = {"dense": oracle_dense, "history": oracle_dense, "circ": oracle_circ, "fblock": oracle_block, "g0": oracle_block}
 BUDGET = {"dense": (20, 220), "history": (12, 120), "circ": (30, 300), "fblock": (16, 160), "g0": (16, 160)}
 
+
+
+def _has(case, kind):
+    return any(t["kind"] == kind for t in case["terms"])
+
+
+# configurations every run must contain (the first cases of a stream are drawn until they match): combinations that a
+# purely random draw of 20-30 cases misses with noticeable probability (round-2 audit: a dropped conjugate in the gram
+# matrix of a complex MatrixOperator C_i next to a Diagonal one was invisible for seed 0)
+STRATA = {
+    "dense": [
+        lambda c: c["cplx"] and _has(c, "matrix") and len({t["kind"] for t in c["terms"]}) > 1,
+        lambda c: c["cplx"] and _has(c, "matrix") and c["f"] is not None and c["f"]["kind"] == "matrix" and c["f"]["W"] is not None,
+        lambda c: c["cplx"] and all(t["kind"] == "diagonal" for t in c["terms"]) and c["f"] is not None and c["f"]["kind"] == "diagonal",
+        lambda c: (not c["cplx"]) and _has(c, "matrix") and c["f"] is None,
+        lambda c: c["f"] is not None and c["f"]["kind"] == "matrix" and c["f"]["m"] < c["n"] and all(t["kind"] != "matrix" for t in c["terms"])
+        and c["f"]["W"] is not None and 0.0 not in c["f"]["W"],  # Woodbury path of the factorisation solver
+    ],
+    "history": [
+        lambda c: c["cplx"] and _has(c, "matrix"),
+        lambda c: c["f"]["W"] is not None and c["f"]["history"]["kind"] == "set_scale-mul",
+    ],
+    "circ": [
+        lambda c: c["cplx"] and c["f"] is not None and c["f"]["kind"] == "identity" and c["f"]["W"] is None,
+        lambda c: c["f"] is not None and c["f"]["kind"] == "conv" and c["f"]["W"] is None and any(t["kind"] == "fd" for t in c["terms"]),
+    ],
+    "fblock": [lambda c: c["cplx"] and c["W"] is None and c["K"] >= 2 and any(t["kind"] == "conv" for t in c["terms"])],
+    "g0": [lambda c: c["K"] >= 2 and len(c["terms"]) == 2 and c["terms"][0]["rho"] != c["terms"][1]["rho"] and c["rho1"] != c["terms"][0]["rho"]],
+}
+
+
+def _gen_where(gen, rng, pred, cap=2000):
+    for _ in range(cap):
+        case = gen(rng)
+        if pred(case):
+            return case
+    raise common.Infra("stratified generator: configuration not reached")
+
+
 G0_WITNESS = {"kind": "g0", "K": 1, "N": 2, "cplx": False, "h": [1.0], "ks": 1, "y": [0.0, 0.0], "scale": 2.0, "rho1": 1.0, "z1": [1.0, 1.0], "u1": [0.0, 0.0],
               "terms": [{"kind": "identity", "rho": 1.0, "z": [0.0, 0.0], "u": [0.0, 0.0]}]}
 CIRCW_WITNESS = {"kind": "fblock", "K": 1, "N": 2, "cplx": False, "h": [1.0], "ks": 1, "y": [1.0, 1.0], "scale": 0.5, "W": [2.0, 0.5],
@@ -780,8 +819,13 @@ def correspond(ctx, model):
         if only and kind not in only.split(","):
             continue
         q, t = BUDGET[kind]
-        for _ in range(ctx.n(q, t)):
-            RUNNERS[kind](ctx, model, gen(ctx.rng))
+        for i in range(ctx.n(q, t)):
+            want = STRATA.get(kind, [])
+            case = _gen_where(gen, ctx.rng, want[i]) if i < len(want) else gen(ctx.rng)
+            RUNNERS[kind](ctx, model, case)
+    if only:
+        # a restricted run is a debugging aid only: it can print VIOLATION lines but can never be reported as "held"
+        raise common.Infra(f"LINSOLVE_STREAMS={only} is set: restricted debugging run, not a valid check (unset it)")
 
 
 MIXED_WITNESS = {"kind": "dense", "n": 2, "cplx": False, "f": None, "x0": [0.0, 0.0],
